@@ -428,6 +428,9 @@ fn negation_layer(rng: &mut Rng, spec: &TreeSpec) -> LayerSpec {
         0 | 1 => LayerSpec::NotText(walkgen::negation(rng, spec)),
         2 => LayerSpec::NotGlob(walkgen::negation(rng, spec)),
         _ => {
+            if rng.chance(1, 4) {
+                return LayerSpec::NotAny(walkgen::any_with_empty_member(rng, spec));
+            }
             let n = rng.range(1, 3);
             LayerSpec::NotAny((0..n).map(|_| walkgen::negation(rng, spec)).collect())
         },
@@ -490,8 +493,8 @@ fn c03_walk(idx: usize, ctx: &Ctx, rpt: &mut Report) {
     if negated.error.is_some() {
         return;
     }
-    let is_match = match &stack.models[0] {
-        LayerModel::Not { is_match, .. } => is_match,
+    let (is_match, matches_exhaustive) = match &stack.models[0] {
+        LayerModel::Not { is_match, matches_exhaustive, .. } => (is_match, matches_exhaustive),
         _ => return,
     };
     let mut expected = Vec::new();
@@ -524,19 +527,37 @@ fn c03_walk(idx: usize, ctx: &Ctx, rpt: &mut Report) {
     }
     let (missing, extra) = diff(&exp, &got);
     if !missing.is_empty() || !extra.is_empty() {
-        let key = negation_exprs(&layer)
-            .iter()
-            .filter_map(|e| parse::parse(e).ok())
-            .find_map(|a| c09_key(Some(&a)))
-            .or_else(|| {
-                // Discarding the walk root because the negation matches the empty path.
-                if is_match("") {
-                    Some("matches-empty-path-but-not-its-children")
-                }
-                else {
-                    None
-                }
+        // The listed findings are consequences of false "always exhaustive" verdicts: entries are
+        // lost beneath a directory that an alternative judged Always (public API) matches. Only
+        // that is attributed: every missing entry must have such an ancestor (the walk root
+        // included), and nothing may be kept that should have been discarded.
+        let explained = extra.is_empty()
+            && missing.iter().all(|m| {
+                bare.items.iter().find(|i| i.path.as_ref().map(|p| p.components().collect::<PathBuf>().to_string_lossy().to_string()).as_ref() == Some(m)).map_or(false, |i| {
+                    let rel = i.relative.to_string_lossy().to_string();
+                    let comps: Vec<&str> = rel.split('/').filter(|c| !c.is_empty() && *c != ".").collect();
+                    (0..comps.len()).any(|n| matches_exhaustive(&comps[..n].join("/")))
+                })
             });
+        let key = if !explained {
+            None
+        }
+        else {
+            negation_exprs(&layer)
+                .iter()
+                .filter_map(|e| parse::parse(e).ok())
+                .find_map(|a| c09_key(Some(&a)))
+                .or_else(|| {
+                    // Discarding the walk root because an alternative judged Always matches the
+                    // empty path.
+                    if matches_exhaustive("") {
+                        Some("matches-empty-path-but-not-its-children")
+                    }
+                    else {
+                        None
+                    }
+                })
+        };
         rpt.disagreement(
             &ctx.known,
             if !missing.is_empty() { "negated-walk-loses-entries-that-do-not-match-the-negation" } else { "negated-walk-keeps-entries-that-match-the-negation" },
